@@ -69,6 +69,8 @@ func runC13(c *core.Ctx) {
 	checkStreamFixedAtHandOff(c, "R13.14")
 	c.Rule("R13.16", "a byte buffer taken from an object pool is emptied before its first use: nothing of a batch whose write failed is sent again with the next batch", 1)
 	checkPooledBuffersStartEmpty(c, "R13.16")
+	c.Rule("R13.17", "on the pool's own goroutines every bounded random draw (rand.Intn and friends) has an argument with a proven positive lower bound, computed without leaving the range of any intermediate type", 2)
+	checkRandBoundsOnPoolGoroutines(c, "R13.17")
 	c.Rule("R13.13", "every variable index into a fixed-size package-level table of the pool is kept below the table's size by a dominating comparison: the pool's goroutines run outside any recover, an index out of range there ends the process", 3)
 	checkFixedTableIndices(c, "R13.13")
 	c.Rule("R13.12", "a caller never abandons its reply channel while the pool may still send on it: the loops receiving the replies of a multi-key request run until the channel is closed (or leave on the retry marker only if recovery sends it at most once per channel)", 2)
